@@ -109,35 +109,7 @@ def run(ctx, rep):
     okpad = len(pads) == 1 and next(iter(pads))[0] == 1 and 'as_function' in str(call_trip_value(call))
     rep.ob(okpad, 'R12.1', fn.path, 'Call arm padding', 'local slots are padded with one null per missing slot, the count deriving from num_locals of the called function: %s' % sorted(pads), 'src/vm.rs')
     # pushframe / popframe
-    pfn = F.fn('vm::VM::pushframe')
-    ps = [p for p in AbsInt(F, pfn).run() if p.exit == 'return']
-    ok = len(ps) == 1
-    if ok:
-        p = ps[0]
-        w = [(x[1], x[2]) for x in p.writes]
-        # first write: (last frame).ip = self.ip  before the push
-        saved = [x for x in p.writes if 'ip' in place_fields(x[3]['place']) and x[2] == ('field', ('deref', ('local', 1)), 'ip')]
-        push = [c for c in p.calls if c[1] == 'alloc::vec::Vec::<T, A>::push']
-        fnew = [c for c in p.calls if c[1] == 'vm::Frame::new']
-        okargs = bool(fnew) and uncast(fnew[0][2][0]) == ('local', 2) and fnew[0][2][1] == ('local', 3)
-        setip = [x for x in p.writes if x[1] in ('_1.*.f4',) or (place_fields(x[3]['place']) == ['ip'] and x[3]['place']['local'] == 1)]
-        ok = bool(saved) and len(push) == 1 and okargs and any(uncast(x[2]) == ('local', 2) for x in p.writes if place_fields(x[3]['place']) == ['ip']) \
-            and any(x[2] == ('local', 3) for x in p.writes if place_fields(x[3]['place']) == ['bp'])
-    rep.ob(ok, 'R12.2', pfn.path, 'contract', 'stores the current ip into the frame being left, pushes Frame::new(ip, base), sets ip and bp', pfn.loc())
-    pop = F.fn('vm::VM::popframe')
-    ps = [p for p in AbsInt(F, pop).run() if p.exit == 'return']
-    ok = len(ps) == 1
-    if ok:
-        p = ps[0]
-        names = [c[1].split('::')[-1] for c in p.calls]
-        seq_ok = [n for n in names if n in ('pop', 'truncate', 'last')] == ['pop', 'truncate', 'last']
-        tr = [c for c in p.calls if c[1].endswith('::truncate')]
-        tr_ok = bool(tr) and 'base_pointer' in show(tr[0][2][1]) and 'pop' in show(tr[0][2][1])
-        ipw = [x for x in p.writes if place_fields(x[3]['place']) == ['ip']]
-        bpw = [x for x in p.writes if place_fields(x[3]['place']) == ['bp']]
-        rest_ok = bool(ipw) and 'last' in show(ipw[0][2]) and 'ip' in show(ipw[0][2]) and bool(bpw) and 'last' in show(bpw[0][2]) and 'base_pointer' in show(bpw[0][2])
-        ok = seq_ok and tr_ok and rest_ok
-    rep.ob(ok, 'R12.2', pop.path, 'contract', 'frames.pop(); stack.truncate(popped.base_pointer); ip/bp restored from the new last frame', pop.loc())
+    frame_contracts(ctx, rep)
     # Return arms
     for op, want in (('ReturnValue', ['pop', 'popframe', 'push']), ('Return', ['popframe', 'push'])):
         arm = v['arms'].get(op)
@@ -159,6 +131,134 @@ def run(ctx, rep):
         ok = order[:2] == ['define', 'new_context']
     rep.ob(ok, 'R12.3', 'compiler::Compiler::compile_expression', 'Expr::Function', 'define(name) precedes new_context() (the body can call itself)', 'src/compiler.rs')
     check_frame_arith(ctx, rep, 'R12.4')
+
+
+def _norm(v, env, roles, depth=0):
+    """value modulo widening: casts, From/Into conversions and borrows removed; a field read of a Frame built in this body is
+    replaced by the operand stored there"""
+    for _ in range(24):
+        if not isinstance(v, tuple) or not v:
+            return v
+        if v[0] == 'cast':
+            v = v[1]
+        elif v[0] == 'ref' and v[1] in env:
+            v = env[v[1]]
+        elif v[0] == 'call' and v[1].endswith(('::from', '::into')) and len(v[2]) == 1 and 'convert' in v[1]:
+            v = v[2][0]
+        elif v[0] == 'field' and depth < 6:
+            inner = _norm(v[1], env, roles, depth + 1)
+            if isinstance(inner, tuple) and inner and inner[0] == 'call' and inner[1] == 'vm::Frame::new' and v[2] in roles['by_name']:
+                v = inner[2][roles['by_name'][v[2]]]
+            elif isinstance(inner, tuple) and inner and inner[0] == 'agg' and inner[1] == 'vm::Frame' and v[2] in roles['field_index']:
+                v = inner[3][roles['field_index'][v[2]]]
+            else:
+                return ('field', inner, v[2])
+        else:
+            return v
+    return v
+
+
+def frame_roles(F):
+    """which field of Frame holds the return address / the base: read from the constructor (parameter -> field)"""
+    fr = F.adt('vm::Frame')
+    names = [f['name'] for f in fr['variants'][0]['fields']]
+    roles = {'field_index': {n: i for i, n in enumerate(names)}, 'by_name': {}, 'ip': None, 'base': None}
+    new = F.fns.get('vm::Frame::new')
+    if new is not None:
+        for pth, r in ret_exprs(F, new):
+            if r and r[0] == 'agg' and r[1] == 'vm::Frame':
+                for i, x in enumerate(r[3]):
+                    x = uncast(x)
+                    if x == ('local', 1):
+                        roles['ip'] = names[i]
+                        roles['by_name'][names[i]] = 0
+                    elif x == ('local', 2):
+                        roles['base'] = names[i]
+                        roles['by_name'][names[i]] = 1
+    if roles['ip'] is None or roles['base'] is None:
+        # no constructor: the usize field is the return address, the narrow one the base
+        for f in fr['variants'][0]['fields']:
+            if f['ty'] == 'usize':
+                roles['ip'] = f['name']
+            elif f['ty'] in ('u16', 'u32'):
+                roles['base'] = f['name']
+    return roles
+
+
+def frame_contracts(ctx, rep):
+    """R12.2: pushframe saves the return address in the frame being left, pushes a frame (entry, base) and makes (entry, base)
+    current; popframe drops the top frame, cuts the stack at ITS base and restores ip/bp from the frame below."""
+    F = ctx.facts()
+    roles = frame_roles(F)
+    vm = F.adt('vm::VM')
+    vmf = [f['name'] for f in vm['variants'][0]['fields']]
+    pfn = F.fn('vm::VM::pushframe')
+    ps = [p for p in AbsInt(F, pfn).run() if p.exit == 'return']
+    ok = len(ps) == 1 and roles['ip'] is not None and roles['base'] is not None
+    why = []
+    cur = {}
+    if ok:
+        p = ps[0]
+        # the current ip/bp registers: the VM fields that end up holding the parameters
+        for i, n in enumerate(vmf):
+            val = p.env.get('_1.*.f%d' % i)
+            if val is None:
+                continue
+            nv = _norm(val, p.env, roles)
+            if nv == ('local', 2):
+                cur['ip'] = (i, n)
+            elif nv == ('local', 3):
+                cur['bp'] = (i, n)
+        if 'ip' not in cur or 'bp' not in cur:
+            ok = False
+            why.append('the entry address / base parameters do not become the current ip / bp (%s)' % sorted(cur))
+        else:
+            old_ip = ('field', ('deref', ('local', 1)), cur['ip'][1])
+            saved = [x for x in p.writes if place_fields(x[3]['place'])[-1:] == [roles['ip']] and x[3]['place']['local'] != 1 and x[2] == old_ip]
+            src_ok = any('last_mut' in show(p.env.get('_%d' % x[3]['place']['local'], ())) or 'last_mut' in str(p.env.get('_%d' % x[3]['place']['local'], ())) for x in saved)
+            if not saved or not src_ok:
+                ok = False
+                why.append('the current ip is not stored into the last frame before it changes')
+            push = [c for c in p.calls if c[1] == 'alloc::vec::Vec::<T, A>::push' and len(c[2]) == 2]
+            okpush = False
+            for c in push:
+                fv = _norm(c[2][1], p.env, roles)
+                if isinstance(fv, tuple) and fv and fv[0] == 'call' and fv[1] == 'vm::Frame::new':
+                    a_ip, a_base = _norm(fv[2][0], p.env, roles), _norm(fv[2][1], p.env, roles)
+                elif isinstance(fv, tuple) and fv and fv[0] == 'agg' and fv[1] == 'vm::Frame':
+                    a_ip = _norm(fv[3][roles['field_index'][roles['ip']]], p.env, roles)
+                    a_base = _norm(fv[3][roles['field_index'][roles['base']]], p.env, roles)
+                else:
+                    continue
+                if a_ip == ('local', 2) and a_base == ('local', 3):
+                    okpush = True
+            if len(push) != 1 or not okpush:
+                ok = False
+                why.append('exactly one Frame(entry, base) must be pushed')
+    rep.ob(ok, 'R12.2', pfn.path, 'contract', '; '.join(why) or 'stores the current ip into the frame being left, pushes Frame(ip, base), sets ip and bp', pfn.loc())
+    pop = F.fn('vm::VM::popframe')
+    ps = [p for p in AbsInt(F, pop).run() if p.exit == 'return']
+    ok = len(ps) == 1 and 'ip' in cur and 'bp' in cur
+    why = []
+    if ok:
+        p = ps[0]
+        names = [c[1].split('::')[-1] for c in p.calls]
+        if [n for n in names if n in ('pop', 'truncate', 'last')] != ['pop', 'truncate', 'last']:
+            ok = False
+            why.append('expected frames.pop(), stack.truncate(..), frames.last() in this order, got %s' % [n for n in names if n in ('pop', 'truncate', 'last', 'push', 'clear')])
+        tr = [c for c in p.calls if c[1].endswith('::truncate')]
+        if ok:
+            tv = _norm(tr[0][2][1], p.env, roles)
+            if not (isinstance(tv, tuple) and tv[0] == 'field' and tv[2] == roles['base'] and 'pop' in show(tv[1])):
+                ok = False
+                why.append('the stack is not cut at the base of the popped frame: %s' % show(tv)[:80])
+            for reg, role in (('ip', 'ip'), ('bp', 'base')):
+                val = p.env.get('_1.*.f%d' % cur[reg][0])
+                nv = _norm(val, p.env, roles) if val is not None else None
+                if not (isinstance(nv, tuple) and nv and nv[0] == 'field' and nv[2] == roles[role] and 'last(' in show(nv[1]) and 'pop(' not in show(nv[1])):
+                    ok = False
+                    why.append('%s is not restored from the %s of the new last frame: %s' % (cur[reg][1], roles[role], show(nv)[:80] if nv else None))
+    rep.ob(ok, 'R12.2', pop.path, 'contract', '; '.join(why) or 'frames.pop(); stack.truncate(popped.base); ip/bp restored from the new last frame', pop.loc())
 
 
 def call_trip_value(call):
